@@ -1,6 +1,6 @@
 (* C18 -- discovery tables hold exactly what the sources say, and stay
    consistent.  Theorems only. *)
-From NX Require Import Bytes Discovery Mdns DiscoveryFacts LeaseFacts SortedFacts MdnsFacts Refresh RefreshFacts.
+From NX Require Import Bytes Discovery Mdns DiscoveryFacts LeaseFacts SortedFacts MdnsFacts Refresh RefreshFacts RefreshHosts.
 Open Scope Z_scope.
 
 Section C18_hosts.
@@ -155,3 +155,17 @@ Theorem C18_same_stamp_never_reloaded : forall (T : Type) (parse : bytes -> T) s
   r_tbl (run T parse s evs) = parse (s_content f).
 Proof. exact same_stat_never_reloaded. Qed.
 Print Assumptions C18_same_stamp_never_reloaded.
+
+(* ... instantiated with the hosts-file parser: a lookup made one refresh interval after the last lookup that
+   preceded the change of the file (and every later one) answers from exactly the table of the file on disk,
+   which C18_hosts_addr / C18_hosts_name characterise *)
+Theorem C18_hosts_lookup_after_change : forall canon s evs1 tc f pre e post name addr,
+  r_expires s <= tc + refresh_interval -> (forall e1, In e1 evs1 -> fst e1 <= tc) ->
+  honest hosts_tbl (read_hosts canon) (run hosts_tbl (read_hosts canon) s evs1) f ->
+  (forall e2, In e2 (pre ++ e :: post) -> snd e2 = Some f) ->
+  tc + refresh_interval <= fst e ->
+  let s' := run hosts_tbl (read_hosts canon) s (evs1 ++ pre ++ e :: post) in
+  hosts_lookup_host (r_tbl s') name = hosts_lookup_host (read_hosts canon (s_content f)) name /\
+  hosts_lookup_addr (r_tbl s') addr = hosts_lookup_addr (read_hosts canon (s_content f)) addr.
+Proof. exact hosts_lookup_after_change. Qed.
+Print Assumptions C18_hosts_lookup_after_change.
